@@ -372,3 +372,4 @@ seed("C18-5", "C18", "NO-RECEIVER-WRITE")
 seed("C18-6", "C10", "DETERMINISM")
 seed("C18-6", "C18", "NO-GLOBAL-WRITE")
 seed("C19-2", "C10", "CARRY")
+refactor("RX-1", ["C18", "C10"])
